@@ -16,9 +16,10 @@ MANIFEST = dict(
          "Hogg (1999): 1/E(z) for flat and curved models, the fixed-order Gauss-Legendre integral with the affine map (5 nodes; 10 for the "
          "volume), D_C = D_H*int, D_M with sinh/sin arms and sqrt|Omega_k|/D_H, D_A = D_M/(1+z), D_L = (1+z) D_M, dV, V with 4 pi, inverse "
          "critical density (zero for z_s <= z_l) and its constant 4 pi G/c^2 against CODATA-derived value, c in C and Python equal; node / "
-         "weight arrays are written only by the rule generator on [-1,1]; 26 C wrappers: parse format, output sized from the array "
-         "argument, stored term = Q(arg1[i]|arg1, arg2[i]|arg2) (after one level of inlining), complete method table; five Python "
-         "dispatchers: scalar pattern -> suffix -> converted argument, length check dominating the two-array call; exhaustive abstract "
+         "weight arrays are written only by the rule generator on [-1,1]; 26 C wrappers (helpers of the translation unit inlined, then lowered "
+         "as a whole): parse format, output sized from the array argument, stored term = Q(arg1[i]|arg1, arg2[i]|arg2) (after one level of "
+         "inlining), complete method table; five Python dispatchers executed on abstract scalar/array arguments (private helpers followed): "
+         "scalar pattern -> suffix -> converted argument, differing lengths raise before the two-array call; exhaustive abstract "
          "evaluation of the parameter normaliser over (omega_k in {None,0,nonzero}) x (flat in {T,F}); h overrides H0, D_H = c/H0; copy "
          "and pickle argument order; distance modulus formula.",
     note="Not decided: truncation-error bound of the fixed-order rule, bit-identical results of copies (follows from equal constructor "
@@ -33,7 +34,7 @@ ONE = {"ez_inverse": "z", "dV": "z"}
 
 # rules that keep their verdict however the code is laid out (decided by term equality, effect analysis or dominance over
 # resolved calls); every other rule of this check is a template rule (vcheck.core.Check.obt)
-SEMANTIC = ('R11.1', 'R11.3', 'R11.4')
+SEMANTIC = ('R11.1', 'R11.3', 'R11.4', 'R11.5::extract_parms')
 
 
 def run(chk):
@@ -76,6 +77,8 @@ class _Lower(csymx.Lower):
         self.funcs = funcs or {}
         self.keep = keep
         self.depth = depth
+        self.stores = []      # element stores P[idx] = value: dict(base, index, value, loop=(lo, hi) | None)
+        self._loop = None
 
     def expr(self, n):
         k = n.get("kind")
@@ -89,7 +92,18 @@ class _Lower(csymx.Lower):
         if k == "StringLiteral":
             return sp.Symbol(n.get("value", '""'))
         if k == "UnaryOperator" and n.get("opcode") == "&":
-            return sp.Symbol("&" + cfront.render(inner[0]))
+            # address of an lvalue: carries the name and the value the lvalue holds at this point
+            nm = cfront.render(inner[0])
+            try:
+                cur = self.expr(inner[0])
+            except csymx.CUnsupported:
+                cur = sp.Symbol(nm)
+            return sp.Function("addr")(sp.Symbol(nm), cur)
+        if k == "UnaryOperator" and n.get("opcode") == "*":
+            p_ = self.expr(inner[0])
+            if getattr(p_, "func", None) is not None and getattr(p_.func, "__name__", "") == "addr":
+                return self.env.get(str(p_.args[0]), sp.Symbol(str(p_.args[0])))
+            return sp.Function("deref")(p_)
         if k == "CallExpr":
             callee = cfront.strip(inner[0])
             name = cfront.callee_name(n)
@@ -99,8 +113,14 @@ class _Lower(csymx.Lower):
                     raise csymx.CUnsupported("call through the unbound function pointer %s (line %s)" % (name, n.get("line")))
                 name = str(bound)
             if not name:
-                raise csymx.CUnsupported("indirect call (line %s)" % n.get("line"))
+                # call through a table of function pointers (the numpy C API): the callee text is the function symbol
+                name = cfront.render(inner[0])
             args = [self.expr(a) for a in inner[1:]]
+            if name.lstrip("_").startswith("PyArg_Parse"):
+                # the parsed values are written through the pointer arguments: from here on each names "the k-th parsed argument"
+                for a in args:
+                    if getattr(getattr(a, "func", None), "__name__", "") == "addr":
+                        self.env[str(a.args[0])] = sp.Symbol(str(a.args[0]))
             if name in csymx.MATH:
                 return csymx.MATH[name](*args)
             if name in self.funcs and name not in self.keep:
@@ -119,7 +139,64 @@ class _Lower(csymx.Lower):
         return csymx.Lower.expr(self, n)
 
     def run(self, stmts, cond=sp.true):
-        return csymx.Lower.run(self, [self._canon_loop(st) for st in stmts], cond)
+        res = []
+        for st in stmts:
+            st = self._canon_loop(st)
+            if not self._store_stmt(st) and not self._map_loop(st, cond):
+                res += csymx.Lower.run(self, [st], cond)
+            if st.get("kind") == "ReturnStmt":
+                break
+        return res
+
+    def _store_stmt(self, st):
+        """`*p = v` with p the address of a local (an out-parameter of an inlined helper) and `P[idx] = v`"""
+        if not (st.get("kind") == "BinaryOperator" and st.get("opcode") == "="):
+            return False
+        lhs = cfront.strip(st["inner"][0])
+        if lhs.get("kind") == "UnaryOperator" and lhs.get("opcode") == "*":
+            p_ = self.expr(lhs["inner"][0])
+            if getattr(getattr(p_, "func", None), "__name__", "") == "addr":
+                self.env[str(p_.args[0])] = self.expr(st["inner"][1])
+                return True
+            return False
+        if lhs.get("kind") == "ArraySubscriptExpr":
+            self.stores.append({"base": self.expr(lhs["inner"][0]), "index": self.expr(lhs["inner"][1]), "value": self.expr(st["inner"][1]), "loop": self._loop})
+            return True
+        return False
+
+    def _map_loop(self, st, cond):
+        """`for (i = lo; i < hi; i++) { t = ...; P[i] = f(t, i); }`: the element stores are recorded with the loop range; locals
+        assigned in the body are temporaries of one iteration"""
+        if st.get("kind") != "ForStmt":
+            return False
+        init, _cv, test, inc, body = (st.get("inner", []) + [{}] * 5)[:5]
+        bs = _branch_stmts(body) if body.get("kind") else []
+        def is_store(b):
+            return b.get("kind") == "BinaryOperator" and b.get("opcode") == "=" and cfront.strip(b["inner"][0]).get("kind") == "ArraySubscriptExpr"
+        if not any(is_store(b) for b in bs):
+            return False
+        i0, t = cfront.strip(init), cfront.strip(test)
+        if not (i0.get("kind") == "BinaryOperator" and i0.get("opcode") == "=" and t.get("kind") == "BinaryOperator" and t.get("opcode") in ("<", "<=")):
+            raise csymx.CUnsupported("loop header form (line %s)" % st.get("line"))
+        iv = cfront.render(i0["inner"][0])
+        if cfront.render(t["inner"][0]) != iv or cfront.render(inc).replace(" ", "") not in (iv + "++", "++" + iv, "(%s+=1)" % iv):
+            raise csymx.CUnsupported("loop header form (line %s)" % st.get("line"))
+        lo = self.expr(i0["inner"][1])
+        hi = self.expr(t["inner"][1]) - (1 if t["opcode"] == "<" else 0)
+        save, outer = dict(self.env), self._loop
+        self.env[iv] = IDX
+        self._loop = (lo, hi)
+        for b in bs:
+            k = b.get("kind")
+            if is_store(b) or (k == "BinaryOperator" and b.get("opcode") == "=" and cfront.strip(b["inner"][0]).get("kind") == "DeclRefExpr") or k in ("DeclStmt", "NullStmt"):
+                if any(x.get("kind") in ("UnaryOperator", "CompoundAssignOperator", "BinaryOperator") and x.get("opcode") in ("++", "--", "+=", "-=", "=") and cfront.render(x["inner"][0]) == iv for x in cfront.walk(b)):
+                    raise csymx.CUnsupported("the loop body changes its index (line %s)" % b.get("line"))
+                if not self._store_stmt(b):
+                    csymx.Lower.run(self, [b], cond)
+            else:
+                raise csymx.CUnsupported("loop body statement %s (line %s)" % (k, b.get("line")))
+        self.env, self._loop = save, outer
+        return True
 
     @staticmethod
     def _ref(name):
@@ -234,7 +311,7 @@ def _sum_ok(t, summand, n):
     """True / False / None: t is sum_{i=0}^{n-1} summand(i)"""
     sf = _sum_form(t)
     if sf is None:
-        return None if (t is None or not t.has(sp.Sum)) else False
+        return None
     f, lo, hi = sf
     return bool(lo == 0 and hi == n - 1 and _eq(f, summand))
 
@@ -282,9 +359,10 @@ def formulas(chk, lib):
     ok = _sum_ok(t, 4 * sp.pi * f1 * sp.Function("c.vw")(i) * Fn["dV"](c, sp.Function("c.vx")(i) * f1 + f2), 10)
     chk.ob("R11.1", "V::ten-point-sum-times-4pi", ok, W, "V = 4 pi * (b-a)/2 * sum_{i<10} vw_i dV((b-a)/2 vx_i + (a+b)/2) (found %s)" % t)
     t = low("scinv")
-    dnn, dpos, zlr = sp.Symbol("d_nonneg", nonnegative=True), sp.Symbol("d_pos", positive=True), sp.Symbol("zl", real=True)
-    front = _case(t, {zl: zlr, zs: zlr - dnn})
-    chk.ob("R11.1", "scinv::zero-for-source-at-or-in-front-of-lens", None if front is None else bool(front == 0), W, "Sigma_crit^-1 = 0 for z_s <= z_l (found %s)" % front)
+    dpos, zlr = sp.Symbol("d_pos", positive=True), sp.Symbol("zl", real=True)
+    front = [_case(t, {zl: zlr, zs: zlr}), _case(t, {zl: zlr, zs: zlr - dpos})]
+    chk.ob("R11.1", "scinv::zero-for-source-at-or-in-front-of-lens", None if any(f is None for f in front) else all(f == 0 for f in front), W,
+           "Sigma_crit^-1 = 0 for z_s = z_l and for z_s < z_l (found %s)" % front)
     DaF = sp.Function("Da")
     behind = _case(t, {zl: zlr, zs: zlr + dpos})
     if behind is not None:
@@ -614,18 +692,22 @@ def wrappers(chk, lib, wrap, decls):
         lo, hi = s0["loop"]
         chk.ob("R11.3", key_c, bool(s0["index"] == IDX) and same(s0["value"]), W, "stores %s (found [%s] = %s)" % (ref_call, s0["index"], s0["value"]))
         arr = [names[k] for k, (n, v) in enumerate(argspec) if v and k < len(names)]
-        size = hi + 1
+
+        def is_size(t):
+            return bool(arr) and isinstance(t, sp.core.function.AppliedUndef) and (
+                any(a == sp.Function("PyArray_DIMS")(S(arr[0])) for a in t.args) or (_fname(t) in ("PyArray_SIZE", "PyArray_Size") and t.args[:1] == (S(arr[0]),)))
+
         alloc = s0["base"].args[0] if _fname(s0["base"]) == "PyArray_DATA" and len(s0["base"].args) == 1 else None
-        is_size = bool(arr) and isinstance(size, sp.core.function.AppliedUndef) and (
-            any(a == sp.Function("PyArray_DIMS")(S(arr[0])) for a in size.args) or (_fname(size) in ("PyArray_SIZE", "PyArray_Size") and size.args[:1] == (S(arr[0]),)))
         is_alloc = alloc is not None and isinstance(alloc, sp.core.function.AppliedUndef) and len(alloc.args) >= 3 and (
             "PyArray_API" in _fname(alloc) or _fname(alloc) in ("PyArray_Zeros", "PyArray_ZEROS", "PyArray_Empty", "PyArray_EMPTY", "PyArray_SimpleNew"))
-        dims_ok = bool(is_alloc) and alloc.args[0] == 1 and _fname(alloc.args[1]) == "addr" and alloc.args[1].args[1] == size
-        if alloc is None or not is_alloc:
+        asize = alloc.args[1].args[1] if is_alloc and _fname(alloc.args[1]) == "addr" else None
+        if not is_alloc:
             chk.ob("R11.3", wname + "::output-sized-from-array-argument", None, W, "the output array allocation was not recognised (stores go to %s)" % s0["base"])
         else:
-            chk.ob("R11.3", wname + "::output-sized-from-array-argument", bool(is_size and dims_ok), W, "the 1-d output is allocated with the size of %s (size %s, allocation %s)" % (arr[:1], size, alloc))
-        chk.ob("R11.3", wname + "::loop-over-all-elements", bool(lo == 0 and is_size and s0["index"] == IDX), W, "for i in [0, size of %s) (found [%s, %s], index %s)" % (arr[:1], lo, size, s0["index"]))
+            chk.ob("R11.3", wname + "::output-sized-from-array-argument", bool(alloc.args[0] == 1 and asize is not None and is_size(asize)), W,
+                   "the 1-d output is allocated with the size of %s (allocation %s)" % (arr[:1], alloc))
+        chk.ob("R11.3", wname + "::loop-over-all-elements", bool(lo == 0 and is_size(hi + 1) and (asize is None or asize == hi + 1) and s0["index"] == IDX), W,
+               "for i in [0, size of %s) (found [%s, %s), index %s)" % (arr[:1], lo, hi + 1, s0["index"]))
         if alloc is None or not is_alloc or not live:
             chk.ob("R11.3", wname + "::returns-new-array", None, W, "the returned object / its allocation was not recognised (returns %s)" % live)
         else:
@@ -649,103 +731,455 @@ def wrappers(chk, lib, wrap, decls):
         chk.ob("R11.3", m + "::accessor", any("self->cosmo->%s" % m in r for r in rets), W, "accessor %s() returns the stored value (%s)" % (m, rets))
 
 
+# --------------------------------------------------------------------------
+# Python side: a small path-enumerating abstract interpreter.  The dispatchers, their private helpers, the array conversion and
+# the parameter normaliser are *executed* on abstract argument values (scalar / array with conversion attributes, None / zero /
+# non-zero curvature ...), calls to private methods and module functions are followed, and the rules are stated on the outcome
+# of each path (which entry point of the extension object got which arguments, what is returned or raised).
+# --------------------------------------------------------------------------
+class _Unsup(Exception):
+    """a construct outside the interpreted subset: no verdict"""
+
+
+class _Need(Exception):
+    def __init__(self, key):
+        self.key = key
+
+
+class _Raised(Exception):
+    def __init__(self, what):
+        self.what = what
+
+
+class _Arg:
+    """an argument of the public method: a scalar or an array-like, with what is known after conversions"""
+
+    def __init__(self, name, scalar, f8=False, contig=False, nd1=False):
+        self.name, self.scalar, self.f8, self.contig, self.nd1 = name, scalar, f8, contig, nd1
+
+    def converted(self):
+        return self.f8 and self.contig and self.nd1
+
+    def untouched(self):
+        return not (self.f8 or self.contig or self.nd1)
+
+    def __repr__(self):
+        return "%s<%s%s>" % (self.name, "scalar" if self.scalar else "array", "".join(t for t, on in ((",f8", self.f8), (",C", self.contig), (",1d", self.nd1)) if on))
+
+
+class _Tag:
+    def __init__(self, kind, **kw):
+        self.kind = kind
+        self.__dict__.update(kw)
+
+    def __repr__(self):
+        return "<%s %s>" % (self.kind, {k: v for k, v in self.__dict__.items() if k != "kind"})
+
+
+_F8 = ("f8", "float64", "d", "double", "float", "=f8", "np.float64", "numpy.float64", "np.double", "np.float_", "np.float", "float")
+_UNKNOWN = _Tag("unknown")
+
+
+class _Interp:
+    def __init__(self, repo, max_forks=6):
+        self.repo = repo
+        self.max_forks = max_forks
+
+    # -- driver ------------------------------------------------------------
+    def paths(self, fi, argvals):
+        """all paths of fi(*argvals) (self excluded): list of dict(kind 'return'|'raise', value, calls, dec)"""
+        out, todo = [], [{}]
+        while todo:
+            self.dec = todo.pop()
+            self.calls = []
+            try:
+                v = self.invoke(fi, list(argvals), {}, 0)
+                out.append({"kind": "return", "value": v, "calls": self.calls, "dec": dict(self.dec)})
+            except _Raised as r:
+                out.append({"kind": "raise", "value": r.what, "calls": self.calls, "dec": dict(self.dec)})
+            except _Need as n:
+                if len(self.dec) >= self.max_forks:
+                    raise _Unsup("too many undecided tests")
+                todo.append(dict(self.dec, **{n.key: True}))
+                todo.append(dict(self.dec, **{n.key: False}))
+        return out
+
+    def invoke(self, fi, pos, kw, depth):
+        if depth > 4:
+            raise _Unsup("call nesting too deep")
+        params = list(fi.params)
+        if any(p_.startswith("*") for p_ in params):
+            raise _Unsup("variadic callee %s" % fi.name)
+        env = {}
+        if fi.cls and params and params[0] == "self":
+            env["self"] = _Tag("self", cls=fi.cls)
+            params = params[1:]
+        if len(pos) > len(params):
+            raise _Unsup("too many arguments for %s" % fi.name)
+        for p_, v in zip(params, pos):
+            env[p_] = v
+        for k, v in kw.items():
+            if k not in params or k in env:
+                raise _Unsup("keyword %s of %s" % (k, fi.name))
+            env[k] = v
+        for p_ in params:
+            if p_ not in env:
+                if p_ not in fi.defaults:
+                    raise _Unsup("missing argument %s of %s" % (p_, fi.name))
+                env[p_] = self.ev(fi.defaults[p_], {}, fi, depth)
+        try:
+            self.block(fi.node.body, env, fi, depth)
+        except _Return as r:
+            return r.value
+        return None
+
+    # -- statements --------------------------------------------------------
+    def block(self, stmts, env, fi, depth):
+        for st in stmts:
+            if isinstance(st, ast.Expr):
+                if not isinstance(st.value, ast.Constant):
+                    self.ev(st.value, env, fi, depth)
+            elif isinstance(st, ast.Pass):
+                pass
+            elif isinstance(st, ast.Assign):
+                v = self.ev(st.value, env, fi, depth)
+                for t in st.targets:
+                    self.bind(t, v, env)
+            elif isinstance(st, ast.AnnAssign) and st.value is not None:
+                self.bind(st.target, self.ev(st.value, env, fi, depth), env)
+            elif isinstance(st, ast.If):
+                self.block(st.body if self.truth(st.test, env, fi, depth) else st.orelse, env, fi, depth)
+            elif isinstance(st, ast.Return):
+                raise _Return(self.ev(st.value, env, fi, depth) if st.value is not None else None)
+            elif isinstance(st, ast.Raise):
+                raise _Raised(norm(st.exc) if st.exc is not None else "re-raise")
+            elif isinstance(st, ast.Assert):
+                if not self.truth(st.test, env, fi, depth):
+                    raise _Raised("AssertionError")
+            else:
+                raise _Unsup("statement %s at line %s" % (type(st).__name__, getattr(st, "lineno", "?")))
+
+    def bind(self, t, v, env):
+        if isinstance(t, ast.Name):
+            env[t.id] = v
+        elif isinstance(t, (ast.Tuple, ast.List)) and isinstance(v, tuple) and len(v) == len(t.elts):
+            for tt, vv in zip(t.elts, v):
+                self.bind(tt, vv, env)
+        else:
+            raise _Unsup("assignment target %s" % norm(t))
+
+    # -- tests -------------------------------------------------------------
+    def truth(self, e, env, fi, depth):
+        if isinstance(e, ast.BoolOp):
+            is_and = isinstance(e.op, ast.And)
+            for v in e.values:
+                t = self.truth(v, env, fi, depth)
+                if t != is_and:
+                    return t
+            return is_and
+        if isinstance(e, ast.UnaryOp) and isinstance(e.op, ast.Not):
+            return not self.truth(e.operand, env, fi, depth)
+        v = self.ev(e, env, fi, depth)
+        return self.as_bool(v, e)
+
+    def as_bool(self, v, e):
+        if isinstance(v, _Tag) and v.kind == "cond":
+            if v.key not in self.dec:
+                raise _Need(v.key)
+            return self.dec[v.key] == v.pol
+        if v is None or isinstance(v, (bool, int, float, str, tuple)):
+            return bool(v)
+        if isinstance(v, sp.Basic):
+            if v.is_zero is True:
+                return False
+            if v.is_nonzero is True or v.is_zero is False:
+                return True
+        key = "test:" + norm(e)
+        if key not in self.dec:
+            raise _Need(key)
+        return self.dec[key]
+
+    # -- expressions ---------------------------------------------------------
+    def ev(self, e, env, fi, depth):
+        if isinstance(e, ast.Constant):
+            return e.value
+        if isinstance(e, ast.Name):
+            if e.id in env:
+                return env[e.id]
+            if e.id in ("True", "False", "None"):
+                return {"True": True, "False": False, "None": None}[e.id]
+            full = self.repo.resolve_name(fi.module, e.id)
+            if full in self.repo.funcs:
+                return _Tag("func", fi=self.repo.funcs[full])
+            if e.id in fi.module.consts and isinstance(fi.module.consts[e.id], ast.Constant):
+                return fi.module.consts[e.id].value
+            return _Tag("global", name=full)
+        if isinstance(e, ast.Tuple):
+            return tuple(self.ev(x, env, fi, depth) for x in e.elts)
+        if isinstance(e, ast.Attribute):
+            b = self.ev(e.value, env, fi, depth)
+            if isinstance(b, _Tag) and b.kind == "self":
+                if e.attr == "_cosmo":
+                    return _Tag("ext")
+                q = "%s.%s.%s" % (fi.module.name, b.cls, e.attr)
+                if q in self.repo.funcs:
+                    return _Tag("method", fi=self.repo.funcs[q])
+                return _Tag("selfattr", name=e.attr)
+            if isinstance(b, _Tag) and b.kind == "ext":
+                return _Tag("extmethod", name=e.attr)
+            if isinstance(b, _Tag) and b.kind == "global":
+                return _Tag("global", name=b.name + "." + e.attr)
+            if isinstance(b, _Arg) and e.attr == "size":
+                return _Tag("len", of=b.name)
+            if isinstance(b, _Arg):
+                return _Tag("argattr", arg=b, name=e.attr)
+            return _UNKNOWN
+        if isinstance(e, ast.BinOp):
+            a, b = self.ev(e.left, env, fi, depth), self.ev(e.right, env, fi, depth)
+            if isinstance(e.op, ast.Add) and isinstance(a, str) and isinstance(b, str):
+                return a + b
+            if isinstance(e.op, ast.Mod) and isinstance(a, str):
+                try:
+                    return a % b if all(isinstance(x, (str, int, float)) for x in (b if isinstance(b, tuple) else (b,))) else _UNKNOWN
+                except (TypeError, ValueError):
+                    return _UNKNOWN
+            num = (int, float, sp.Basic)
+            if isinstance(a, num) and isinstance(b, num) and not isinstance(a, bool) and not isinstance(b, bool):
+                try:
+                    if isinstance(e.op, ast.Add):
+                        return a + b
+                    if isinstance(e.op, ast.Sub):
+                        return a - b
+                    if isinstance(e.op, ast.Mult):
+                        return a * b
+                    if isinstance(e.op, ast.Div):
+                        return a / b
+                except (TypeError, ZeroDivisionError):
+                    return _UNKNOWN
+            return _UNKNOWN
+        if isinstance(e, ast.UnaryOp):
+            if isinstance(e.op, ast.Not):
+                return not self.truth(e.operand, env, fi, depth)
+            v = self.ev(e.operand, env, fi, depth)
+            if isinstance(e.op, ast.USub) and isinstance(v, (int, float, sp.Basic)) and not isinstance(v, bool):
+                return -v
+            return _UNKNOWN
+        if isinstance(e, ast.BoolOp):
+            return self.truth(e, env, fi, depth)
+        if isinstance(e, ast.Compare) and len(e.ops) == 1:
+            return self.compare(e.ops[0], self.ev(e.left, env, fi, depth), self.ev(e.comparators[0], env, fi, depth))
+        if isinstance(e, ast.IfExp):
+            return self.ev(e.body if self.truth(e.test, env, fi, depth) else e.orelse, env, fi, depth)
+        if isinstance(e, ast.JoinedStr):
+            return _UNKNOWN
+        if isinstance(e, ast.Call):
+            return self.call(e, env, fi, depth)
+        return _UNKNOWN
+
+    def compare(self, op, a, b):
+        if isinstance(op, (ast.Is, ast.IsNot)):
+            if a is None or b is None:
+                other = b if a is None else a
+                if other is _UNKNOWN:
+                    return _UNKNOWN
+                r = other is None
+                return r if isinstance(op, ast.Is) else not r
+            if isinstance(a, bool) and isinstance(b, bool):
+                return (a is b) if isinstance(op, ast.Is) else (a is not b)
+            return _UNKNOWN
+        if isinstance(op, (ast.Eq, ast.NotEq)):
+            if isinstance(a, _Tag) and isinstance(b, _Tag) and a.kind == "len" and b.kind == "len" and a.of != b.of:
+                return _Tag("cond", key="lengths-differ", pol=isinstance(op, ast.NotEq))
+            r = None
+            simple = (type(None), bool, int, float, str)
+            if isinstance(a, simple) and isinstance(b, simple):
+                r = a == b
+            elif isinstance(a, sp.Basic) or isinstance(b, sp.Basic):
+                if a is None or b is None or isinstance(a, (str, _Tag, _Arg)) or isinstance(b, (str, _Tag, _Arg)):
+                    r = False if (a is None or b is None) else None
+                else:
+                    d = sp.simplify(sp.sympify(a) - sp.sympify(b))
+                    r = True if d.is_zero is True else (False if (d.is_nonzero is True or d.is_zero is False) else None)
+            if r is None:
+                return _UNKNOWN
+            return r if isinstance(op, ast.Eq) else not r
+        if isinstance(a, (int, float)) and isinstance(b, (int, float)):
+            return {ast.Lt: a < b, ast.LtE: a <= b, ast.Gt: a > b, ast.GtE: a >= b}.get(type(op), _UNKNOWN)
+        return _UNKNOWN
+
+    def call(self, c, env, fi, depth):
+        f = self.ev(c.func, env, fi, depth)
+        if any(isinstance(a, ast.Starred) for a in c.args) or any(k.arg is None for k in c.keywords):
+            raise _Unsup("star arguments in %s" % norm(c))
+        pos = [self.ev(a, env, fi, depth) for a in c.args]
+        kw = {k.arg: self.ev(k.value, env, fi, depth) for k in c.keywords}
+        if isinstance(f, _Tag) and f.kind == "extmethod":
+            self.calls.append((f.name, pos, kw))
+            return _Tag("extresult", idx=len(self.calls) - 1)
+        if isinstance(f, _Tag) and f.kind in ("func", "method"):
+            return self.invoke(f.fi, pos, kw, depth + 1)
+        name = None
+        if isinstance(f, _Tag) and f.kind == "global":
+            name = f.name
+        elif isinstance(c.func, ast.Name) and c.func.id not in env:
+            name = c.func.id
+        if name in ("numpy.isscalar", "isscalar", "numpy.ndim") and len(pos) == 1 and isinstance(pos[0], _Arg):
+            if name.endswith("ndim"):
+                return 0 if pos[0].scalar else (_UNKNOWN if not pos[0].nd1 else 1)
+            # a converted value (at least 1-d array) is not a scalar any more
+            return pos[0].scalar and not pos[0].nd1
+        if name == "len" and len(pos) == 1 and isinstance(pos[0], _Arg):
+            return _Tag("len", of=pos[0].name)
+        if name == "getattr" and len(pos) >= 2 and isinstance(pos[0], _Tag) and pos[0].kind == "ext" and isinstance(pos[1], str):
+            return _Tag("extmethod", name=pos[1])
+        if name in ("bool", "float", "int", "str") and len(pos) == 1 and isinstance(pos[0], (bool, int, float, str)):
+            return {"bool": bool, "float": float, "int": int, "str": str}[name](pos[0])
+        if name and name.startswith("numpy.") and pos and isinstance(pos[0], _Arg):
+            return self.numpy_conv(name[6:], pos, kw)
+        if isinstance(f, _Tag) and f.kind == "argattr" and f.name == "astype":
+            a = f.arg
+            d = pos[0] if pos else kw.get("dtype")
+            return _Arg(a.name, a.scalar, self.is_f8(d), a.contig, a.nd1)
+        return _UNKNOWN
+
+    @staticmethod
+    def is_f8(d):
+        if isinstance(d, str):
+            return d in _F8
+        if isinstance(d, _Tag) and d.kind == "global":
+            return d.name in ("numpy.float64", "numpy.double", "numpy.float_", "float", "numpy.float")
+        return False
+
+    def numpy_conv(self, fn, pos, kw):
+        a = pos[0]
+        if fn in ("asarray", "array", "asanyarray", "ascontiguousarray", "require"):
+            d = pos[1] if len(pos) > 1 else kw.get("dtype")
+            f8 = self.is_f8(d) or (a.f8 and d is None)
+            if fn == "ascontiguousarray":
+                return _Arg(a.name, a.scalar, f8, True, True)
+            if fn == "require":
+                req = pos[2] if len(pos) > 2 else kw.get("requirements")
+                req = req if isinstance(req, (tuple, list)) else (req,)
+                return _Arg(a.name, a.scalar, f8, a.contig or any(r in ("C", "C_CONTIGUOUS", "CONTIGUOUS") for r in req if isinstance(r, str)), a.nd1)
+            order = kw.get("order", pos[2] if len(pos) > 2 and fn != "array" else None)
+            ndmin = kw.get("ndmin", 0)
+            return _Arg(a.name, a.scalar, f8, order == "C" or (a.contig and order in (None, "K", "A")), a.nd1 or (isinstance(ndmin, int) and ndmin >= 1))
+        if fn == "atleast_1d" and len(pos) == 1:
+            return _Arg(a.name, a.scalar, a.f8, a.contig, True)
+        return _UNKNOWN
+
+
+class _Return(Exception):
+    def __init__(self, value):
+        self.value = value
+
+
+def _run_paths(chk, repo, fi, argvals, rule, key):
+    """paths of fi on the abstract arguments, or None after reporting `not recognised`"""
+    try:
+        return _Interp(repo).paths(fi, argvals)
+    except _Unsup as e:
+        chk.ob(rule, key, None, fi.where(), "the code reached from %s uses a construct outside the interpreted subset (%s)" % (fi.name, e))
+        return None
+
+
+def _ext_call_ok(o, name, argnames):
+    """the path makes exactly one call into the extension object, to `name`, with the method's own arguments in order"""
+    if o["kind"] != "return" or len(o["calls"]) != 1:
+        return False
+    n, pos, kw = o["calls"][0]
+    return n == name and not kw and len(pos) == len(argnames) and all(isinstance(a, _Arg) and a.name == an for a, an in zip(pos, argnames))
+
+
 def dispatch(chk, repo):
     for meth, cq, (a1, a2) in (("Dc", "Dc", ("zmin", "zmax")), ("Dm", "Dm", ("zmin", "zmax")), ("Da", "Da", ("zmin", "zmax")), ("Dl", "Dl", ("zmin", "zmax")), ("sigmacritinv", "scinv", ("zl", "zs"))):
         fi = repo.func(CQ + "Cosmo." + meth)
         chk.analysed_unit(fi.qualname)
-        cfg = cfg_of(fi)
+        normal_all = []
         for s1 in (True, False):
             for s2 in (True, False):
-                assume = {"isscalar(%s)" % a1: s1, "isscalar(%s)" % a2: s2}
-                v = cfg.specialise(assume=assume)
-                calls = [(n, c) for n in v.nodes() for c in rules.stmts_calls(n) if isinstance(c.func, ast.Attribute) and norm(c.func.value) == "self._cosmo"]
                 suffix = {(True, True): "", (False, True): "_vec1", (True, False): "_vec2", (False, False): "_2vec"}[(s1, s2)]
                 tag = "%s[%s %s,%s %s]" % (meth, a1, "scalar" if s1 else "array", a2, "scalar" if s2 else "array")
-                ok = len(calls) == 1 and calls[0][1].func.attr == cq + suffix and [norm(a) for a in calls[0][1].args] == [a1, a2]
-                chk.ob("R11.4", tag + "::selects-" + cq + suffix, ok, fi.where(), "dispatches to _cosmo.%s(%s, %s) (found %s)" % (cq + suffix, a1, a2, [norm(c) for _, c in calls]))
-                # array arguments are converted by _as_c_order before the call, scalars are not touched
-                conv = {norm(n.ast.targets[0]) for n in v.nodes() if n.kind == "stmt" and isinstance(n.ast, ast.Assign) and isinstance(n.ast.value, ast.Call) and call_name(n.ast.value) == "_as_c_order"
-                        and norm(n.ast.value.args[0]) == norm(n.ast.targets[0])}
-                want = {a for a, s in ((a1, s1), (a2, s2)) if not s}
-                chk.ob("R11.4", tag + "::converts-array-arguments", conv == want, fi.where(), "converted to float64 C-contiguous: %s (want %s)" % (sorted(conv), sorted(want)))
-                if not s1 and not s2 and calls:
-                    vv = v
-                    guards = [n for n in vv.nodes() if n.kind == "raise" and any(t.replace(" ", "") == "len(%s)!=len(%s)" % (a1, a2) and lab == "T" for t, lab in rules.controlling_tests(vv, n))]
-                    okg = bool(guards) and vv.dominates(vv.controlling_branches(guards[0])[0][0], calls[0][0])
-                    chk.ob("R11.4", tag + "::length-mismatch-rejected", okg, fi.where(), "different lengths raise before the two-array call")
-        rets = [x for x in walk_no_nested(fi.node) if isinstance(x, ast.Return)]
-        asg = {norm(n.ast.targets[0]) for n in cfg.nodes if n.kind == "stmt" and isinstance(n.ast, ast.Assign) and isinstance(n.ast.value, ast.Call) and isinstance(n.ast.value.func, ast.Attribute) and norm(n.ast.value.func.value) == "self._cosmo"}
-        chk.ob("R11.4", meth + "::returns-result", len(rets) == 1 and len(asg) == 1 and norm(rets[0].value) in asg, fi.where(), "the extension's result is returned unmodified")
+                outs = _run_paths(chk, repo, fi, [_Arg(a1, s1), _Arg(a2, s2)], "R11.4", tag + "::selects-" + cq + suffix)
+                if outs is None:
+                    continue
+                # paths on which two array arguments were found to differ in length are judged by the rejection rule below
+                normal = [o for o in outs if not o["dec"].get("lengths-differ")]
+                normal_all += normal
+                found = [(o["kind"], [(n, pos) for n, pos, _ in o["calls"]]) for o in normal]
+                ok = bool(normal) and all(_ext_call_ok(o, cq + suffix, (a1, a2)) for o in normal)
+                chk.ob("R11.4", tag + "::selects-" + cq + suffix, ok, fi.where(), "dispatches to _cosmo.%s(%s, %s) (found %s)" % (cq + suffix, a1, a2, found))
+                # array arguments reach the extension converted (float64, C-contiguous, at least 1-d), scalars untouched
+                if ok:
+                    good = all(all((a.untouched() if s else a.converted()) for a, s in zip(o["calls"][0][1], (s1, s2))) for o in normal)
+                    chk.ob("R11.4", tag + "::converts-array-arguments", good, fi.where(), "array arguments are converted to float64 C-contiguous, scalars passed as given (found %s)" % found)
+                else:
+                    chk.ob("R11.4", tag + "::converts-array-arguments", None, fi.where(), "no single extension call to look at (found %s)" % found)
+                if not s1 and not s2:
+                    differ = [o for o in outs if o["dec"].get("lengths-differ")]
+                    okg = bool(differ) and all(o["kind"] == "raise" and not o["calls"] for o in differ)
+                    chk.ob("R11.4", tag + "::length-mismatch-rejected", okg, fi.where(), "different lengths raise before the two-array call (paths with differing lengths: %s)" % [(o["kind"], [n for n, _, _ in o["calls"]]) for o in differ])
+        okr = bool(normal_all) and all(o["kind"] == "return" and isinstance(o["value"], _Tag) and o["value"].kind == "extresult" and o["value"].idx == len(o["calls"]) - 1 for o in normal_all)
+        chk.ob("R11.4", meth + "::returns-result", okr, fi.where(), "the extension's result is returned unmodified")
     for meth, cq in (("dV", "dV"), ("Ez_inverse", "ez_inverse")):
         fi = repo.func(CQ + "Cosmo." + meth)
         chk.analysed_unit(fi.qualname)
-        cfg = cfg_of(fi)
-        for s in (True, False):
-            v = cfg.specialise(assume={"isscalar(z)": s})
-            calls = [c for n in v.nodes() for c in rules.stmts_calls(n) if isinstance(c.func, ast.Attribute) and norm(c.func.value) == "self._cosmo"]
-            ok = len(calls) == 1 and calls[0].func.attr == cq + ("" if s else "_vec") and [norm(a) for a in calls[0].args] == ["z"]
-            chk.ob("R11.4", "%s[z %s]" % (meth, "scalar" if s else "array"), ok, fi.where(), "dispatches to _cosmo.%s(z)" % (cq + ("" if s else "_vec")))
+        for s_ in (True, False):
+            key = "%s[z %s]" % (meth, "scalar" if s_ else "array")
+            outs = _run_paths(chk, repo, fi, [_Arg("z", s_)], "R11.4", key)
+            if outs is None:
+                continue
+            want = cq + ("" if s_ else "_vec")
+            ok = bool(outs) and all(_ext_call_ok(o, want, ("z",)) and (o["calls"][0][1][0].untouched() if s_ else o["calls"][0][1][0].converted())
+                                    and isinstance(o["value"], _Tag) and o["value"].kind == "extresult" for o in outs)
+            chk.ob("R11.4", key, ok, fi.where(), "dispatches to _cosmo.%s(z)%s and returns its result (found %s)" % (want, "" if s_ else " with z converted", [(o["kind"], o["calls"]) for o in outs]))
     for meth, cq in (("V", "V"), ("Ezinv_integral", "ez_inverse_integral")):
         fi = repo.func(CQ + "Cosmo." + meth)
-        rets = [norm(x.value) for x in walk_no_nested(fi.node) if isinstance(x, ast.Return)]
-        chk.ob("R11.4", meth + "::delegates", rets == ["self._cosmo.%s(zmin, zmax)" % cq], fi.where(), "delegates to _cosmo.%s(zmin, zmax)" % cq)
+        outs = _run_paths(chk, repo, fi, [_Arg("zmin", True), _Arg("zmax", True)], "R11.4", meth + "::delegates")
+        if outs is None:
+            continue
+        ok = bool(outs) and all(_ext_call_ok(o, cq, ("zmin", "zmax")) and all(a.untouched() for a in o["calls"][0][1]) and isinstance(o["value"], _Tag) and o["value"].kind == "extresult" for o in outs)
+        chk.ob("R11.4", meth + "::delegates", ok, fi.where(), "delegates to _cosmo.%s(zmin, zmax) (found %s)" % (cq, [(o["kind"], o["calls"]) for o in outs]))
     ac = repo.func(CQ + "_as_c_order")
-    rets = [norm(x.value) for x in walk_no_nested(ac.node) if isinstance(x, ast.Return)]
-    chk.ob("R11.4", "_as_c_order::float64-contiguous", rets == ["np.atleast_1d(np.asarray(arr, dtype='f8', order='C'))"], ac.where(), "array arguments become float64, C-contiguous, at least 1-d (matches the double* reads of the wrappers): %s" % rets)
+    outs = _run_paths(chk, repo, ac, [_Arg("arr", False)], "R11.4", "_as_c_order::float64-contiguous")
+    if outs is not None:
+        vals = [o["value"] for o in outs if o["kind"] == "return"]
+        if not vals or len(vals) != len(outs) or not all(isinstance(v, _Arg) and v.name == "arr" for v in vals):
+            chk.ob("R11.4", "_as_c_order::float64-contiguous", None, ac.where(), "the conversion is not a composition of the numpy conversions known to the checker (returns %s)" % [o["value"] for o in outs])
+        else:
+            chk.ob("R11.4", "_as_c_order::float64-contiguous", all(v.converted() for v in vals), ac.where(),
+                   "array arguments become float64, C-contiguous, at least 1-d (matches the double* reads of the wrappers): %s" % vals)
 
 
 def normaliser(chk, repo):
     fi = repo.func(CQ + "Cosmo.extract_parms")
     chk.analysed_unit(fi.qualname)
-    cfg = cfg_of(fi)
-    om, ol, okv = sp.symbols("omega_m omega_l omega_k")
+    M, Lm = sp.Symbol("omega_m", real=True), sp.Symbol("omega_l", real=True)
+    K = sp.Symbol("omega_k", real=True, nonzero=True)
+    order = [p for p in fi.params if p != "self"]
     for kcase in ("None", "zero", "nonzero"):
         for flat_in in (True, False):
-            assume = {"omega_k is not None": kcase != "None", "omega_k is None": kcase == "None", "omega_k == 0.0": kcase == "zero"}
-            # abstract evaluation: follow the CFG with the predicate outcomes; `flat` is tracked as a literal
-            state = {"flat": flat_in, "omega_k": {"None": None, "zero": 0.0, "nonzero": "K"}[kcase], "omega_l": "L", "omega_m": "M"}
-            n = cfg.entry
-            steps = 0
-            result = None
-            while n is not None and steps < 200:
-                steps += 1
-                if n.kind == "return":
-                    result = tuple(state.get(norm(e), norm(e)) for e in n.ast.value.elts)
-                    break
-                nxt = None
-                if n.kind == "branch":
-                    t = norm(n.ast.test)
-                    if t in assume:
-                        val = assume[t]
-                    elif t == "flat":
-                        val = bool(state["flat"])
-                    else:
-                        raise AnalysisError("normaliser test `%s` not in the abstraction" % t)
-                    for j in cfg.g.successors(n.id):
-                        if ("T" if val else "F") in cfg.g[n.id][j]["labels"]:
-                            nxt = cfg.node(j)
-                else:
-                    a = n.ast
-                    if n.kind == "stmt" and isinstance(a, ast.Assign):
-                        tgt = norm(a.targets[0])
-                        v = a.value
-                        if isinstance(v, ast.Constant):
-                            state[tgt] = v.value
-                            if tgt == "omega_k":
-                                assume.update({"omega_k is not None": True, "omega_k is None": False, "omega_k == 0.0": v.value == 0.0})
-                        elif norm(v) == "1.0 - omega_m":
-                            state[tgt] = "1-M"
-                        else:
-                            raise AnalysisError("normaliser assignment `%s` not in the abstraction" % norm(a))
-                    succ = list(cfg.g.successors(n.id))
-                    nxt = cfg.node(succ[0]) if succ else None
-                n = nxt
-            if kcase == "nonzero":
-                want = (False, "M", "L", "K")
-            else:
-                want = (True, "M", "1-M", 0.0)
-            chk.ob("R11.5", "extract_parms[omega_k=%s,flat=%s]" % (kcase, flat_in), result == want, fi.where(),
-                   "normalised (flat, omega_m, omega_l, omega_k) = %s (abstract evaluation gives %s)" % (want, result))
+            key = "extract_parms[omega_k=%s,flat=%s]" % (kcase, flat_in)
+            vals = {"omega_m": M, "omega_l": Lm, "omega_k": {"None": None, "zero": 0.0, "nonzero": K}[kcase], "flat": flat_in}
+            if sorted(order) != sorted(vals):
+                chk.ob("R11.5", key, None, fi.where(), "extract_parms no longer takes (omega_m, omega_l, omega_k, flat): %s" % order)
+                continue
+            outs = _run_paths(chk, repo, fi, [vals[p_] for p_ in order], "R11.5", key)
+            if outs is None:
+                continue
+            want = (False, M, Lm, K) if kcase == "nonzero" else (True, M, 1 - M, 0.0)
+
+            def same(a, b):
+                if isinstance(a, bool) or isinstance(b, bool) or a is None or b is None:
+                    return a is b
+                try:
+                    return sp.simplify(sp.sympify(a) - sp.sympify(b)) == 0
+                except (sp.SympifyError, TypeError):
+                    return False
+
+            res = [o["value"] if o["kind"] == "return" else "raise" for o in outs]
+            ok = bool(outs) and all(isinstance(r, tuple) and len(r) == 4 and all(same(a, b) for a, b in zip(r, want)) for r in res)
+            chk.ob("R11.5", key, ok, fi.where(), "normalised (flat, omega_m, omega_l, omega_k) = %s (abstract evaluation gives %s)" % (want, res))
     chk.assume("parameter normalisation rule as implemented and documented: a non-zero omega_k decides the geometry; otherwise flat with omega_k=0 and omega_l=1-omega_m")
 
 
